@@ -461,7 +461,9 @@ def run_thread_case(case, sudachipy, vb, sched=None):
     else:
         n = vb.vb_run(None, 0, ctypes.c_uint64(case["sched_seed"]), buf, cap)
     if n < 0:
-        return {"case": case["case"], "ok": False, "op": 0, "class": "no-progress", "site": "baton-wait-timeout", "detail": {}, "stats": {}, "fatal": True}
+        # -1: the thread holding the baton was blocked (not runnable) for 30 s; -2: it burnt 30 s of CPU without reaching a point
+        return {"case": case["case"], "ok": False, "op": 0, "class": "no-progress", "site": "baton-holder-blocked" if n == -1 else "thread-spins",
+                "detail": {"note": "a scheduled thread neither reached a scheduling point nor finished"}, "stats": {}, "fatal": True}
     for t in ths:
         t.join()
     choices = list(buf[:min(n, cap)])
